@@ -17,6 +17,15 @@ PROPS = {
                         "full grammar membership of error-free documents (token ORDER and KINDS inside a production beyond what the min-length bounds imply; only Type is specified exactly, under C07)",
                         "that the syntax tree contains exactly the reference parser's top-level definitions (tree shape is not modelled)", "the reference parser as oracle"],
     },
+    "C17": {
+        "level": "proof",
+        "verus": ["types"],
+        "explanation": "KERNEL ONLY (one of the operation-validation rules): the rule 'All Variable Usages Are Allowed'. Verus proves for every pair of type references, every default value and every list of variable "
+                       "definitions that is_variable_usage_allowed == IsVariableUsageAllowed (including the null default), Type::is_assignable_to == AreTypesCompatible, and that validate_variable_usage reports "
+                       "exactly when the argument is a variable that is defined and whose usage the rule forbids. Bodies are re-extracted from /repo on every run.",
+        "not_decided": ["every other operation-validation rule (field merging, value literals, fragments, directives, subscriptions, arguments): differential against graphql-js, no oracle inside a contract",
+                        "that validate_variable_usage is called for every variable usage (value.rs / argument.rs walk the document through iterators)"],
+    },
     "C26": {
         "level": "proof",
         "verus": ["execution"],
@@ -35,9 +44,13 @@ PROPS = {
         "explanation": "Verus proves, for every Type value of any nesting, that Type::is_assignable_to == AreTypesCompatible, "
                        "is_variable_usage_allowed == IsVariableUsageAllowed (incl. null default) and "
                        "is_valid_implementation_field_type == IsValidImplementationFieldType over the relation computed by Schema::is_subtype; "
-                       "bodies are re-extracted from /repo on every run.",
+                       "and for the two call sites: validate_variable_usage reports (one diagnostic, Err) exactly when the argument is a variable that is defined and whose usage the rule forbids; "
+                       "validate_implementation_field_types reports, in order, exactly one diagnostic for every (implemented interface that exists, field of it that the implementor also has) whose types the rule forbids -- "
+                       "no pair is skipped or reported twice. Bodies are re-extracted from /repo on every run.",
+        "assumptions": ["IndexMap / IndexSet iteration visits the entries in insertion order and `get` finds the first entry with that key (shims FieldMap / NameSet; the for loops are desugared to indexed loops over them)",
+                        "Schema::get_interface returns the interface definition with that name, if any"],
         "not_decided": ["Schema::is_subtype computes the spec's possible-type / declared-implementation relation (IndexMap lookups; assumed)",
-                        "call sites pass the right definitions to these functions"],
+                        "the callers of these two call sites (validate_arguments / validate_object_type_definition ...) pass the right definitions"],
     },
     "C25": {
         "level": "proof",
